@@ -37,7 +37,7 @@ Proof. reflexivity. Qed.
 Lemma K_lk_dsy_mask g k : lk_dsy_mask g k = (g =? k + 1).
 Proof. reflexivity. Qed.
 Lemma K_lk_vmask b a k : lk_vmask b a k = (b || (a =? k)).
-Proof. reflexivity. Qed.
+Proof. unfold lk_vmask. first [reflexivity | rewrite (Z.eqb_sym k a); reflexivity]. Qed.
 Lemma K_lk_slice_hi a n : lk_slice_hi a n = a + n.
 Proof. reflexivity. Qed.
 Lemma K_lk_slice_next a n : lk_slice_next a n = a + n.
